@@ -717,8 +717,8 @@ func TestSender(t *testing.T) {
 	}
 	// the member the translator reads off the source (Spine.Generated.Sender.requestRemembersBeforeWrite) must be the
 	// member the probe finds on the running code
-	if static := d.Ask("member"); (static == "1") == on {
-		r.Mismatch(wit, fmt.Sprintf("probed: request remembered after the write = %v (%s)", on, det), "source says: remembered before the write = "+static, "family member: static fact vs dynamic probe")
+	if static := d.Ask("member"); (static == "after-window") != on {
+		r.Mismatch(wit, fmt.Sprintf("probed: an answered-in-flight request stays remembered = %v (%s)", on, det), "source says: "+static, "family member: static fact vs dynamic probe")
 	}
 	if ops := h.ReplayOps("sender"); ops != nil {
 		runSenderHistory(r, d, ops, true)
@@ -832,7 +832,13 @@ func TestSender(t *testing.T) {
 	r.Floor("withheld requests", r.Dist["req:withheld"], r.Dist["req:withheld"]+r.Dist["req:sent"], 0.05)
 	r.Floor("responses that hit", r.Dist["resp:hit"], r.Dist["resp:hit"]+r.Dist["resp:miss"], 0.05)
 	r.Floor("lookups that hit", r.Dist["get:hit"], r.Dist["get:hit"]+r.Dist["get:miss"], 0.05)
-	r.Floor("requests answered while in flight", r.Dist["req:sent:answered-in-flight"], r.Dist["req:sent"]+r.Dist["req:sent:answered-in-flight"], 0.03)
+	if sndRespSerialised {
+		// a tree in which the response path waits for a request in progress: there is no "in flight", every such step
+		// ran as "request; response"
+		r.Info["response-path"] = "serialised with Request on this tree: a response processed from inside a request's write returned only after the request"
+	} else {
+		r.Floor("requests answered while in flight", r.Dist["req:sent:answered-in-flight"], r.Dist["req:sent"]+r.Dist["req:sent:answered-in-flight"], 0.03)
+	}
 
 	// concurrent senders on the real Sender (monitor; the all-schedules claim rests on c13_unique / c13_monotone_nonoverlap
 	// and on the deterministic overlapping groups above): every way of sending, responses and lookups from 8 goroutines.
